@@ -429,3 +429,44 @@ def decode_traces(rep, prop, tier, seed):
                       {"generated_type": g, "rejected_at": r["line_in_run"], "event": r["event"], "run": r["run_lines"][:80]})
     return {"emitted_decoder_call_traces": {"runs_validated": nruns, "events_validated": events, "rejections": len(rejections),
                                             "cases_traced": len(meta), "calls_without_a_spec_action": unmodelled}}
+
+
+def async_eof(rep, tier, seed):
+    """Emitted decode_async against a stream that ENDS EARLY: for generated types of the corpus, end of stream at every offset
+    of a valid message, delivered under a seeded random schedule, must end in an error (C12: errors on early EOF), exactly as
+    the in-memory decode of the same prefix does; and it must not have taken more than the prefix."""
+    import random
+    cases, res, units, cst = results(tier, seed)
+    base = [cs for cs in cases if cs["kind"] == "base" and cs["how"] == "v1" and cs["ok"] and len(cs["bin"]) <= 160]
+    rnd = random.Random(seed + 79)
+    rnd.shuffle(base)
+    take = base[: (400 if tier == "quick" else 4000)]
+    reqs, meta = [], []
+    for cs in take:
+        path = find = gen.find_type(units, cs["sid"], cs["ty"])
+        if path is None:
+            continue
+        for proto, key in (("bin", "bin"), ("binle", "binle"), ("compact", "cs")):
+            enc = cs[key]
+            for k in range(len(enc)):
+                reqs.append({"id": len(reqs), "ty": path, "proto": proto, "mode": "async", "sched": f"rnd:{k * 7 + 3}", "op": "decode",
+                             "input": enc, "eof_at": k})
+                meta.append({"schema": cs["sid"], "type": cs["ty"], "proto": proto, "eof_at": k, "len": len(enc), "def": "union" if cs["isunion"] else "struct"})
+    out = gen.run_worker(reqs, tag="aeof")
+    n = 0
+    for i, m in enumerate(meta):
+        r = out.get(i)
+        if r is None or r.get("tool_error"):
+            raise c.ToolError("worker: " + str(r))
+        bad = None
+        if r.get("crash") or r.get("panic"):
+            continue                      # C09's statement
+        if r.get("ok"):
+            bad = "eof-accepted"
+        elif r.get("taken", 0) > m["eof_at"]:
+            bad = "eof-overread"
+        if bad:
+            n += 1
+            rep.violation({"check": bad, "site": "generated", "proto": m["proto"], "def": m["def"]},
+                          dict(m, input=reqs[i]["input"], observed={k: v for k, v in r.items() if k != "alloc"}))
+    return {"emitted_async_decoders_early_eof": {"runs": len(reqs), "types": len(take), "violations_before_known_filter": n}}
